@@ -637,7 +637,11 @@ func isSuggest(targetT base.T, sig base.Sig) bool {
 			targetFrame = "Builtin"
 		}
 
-		if sig.Frame != targetFrame {
+		// (a core class reopened at top level is one class with the configured one)
+		isReopenedCore := targetFrame == "" && sig.Frame == "Builtin" &&
+			slices.Contains(base.BuiltinClasses, objectClass)
+
+		if sig.Frame != targetFrame && !isReopenedCore {
 			return false
 		}
 
